@@ -129,7 +129,11 @@ pub fn make_vertex<const D: usize>(v: &VSpec) -> Option<Vertex<f64, U, D>> {
     for (i, b) in v.bits.iter().enumerate() {
         c[i] = f64::from_bits(*b);
     }
-    Some(Vertex::new_with_uuid(Point::new(c), Uuid::from_u128(v.uuid.0), v.data))
+    let mut vertex = Vertex::new_with_uuid(Point::new(c), Uuid::from_u128(v.uuid.0), v.data);
+    if let Some(raw) = v.incident {
+        vertex.incident_cell = Some(ckey(raw));
+    }
+    Some(vertex)
 }
 
 pub fn tg_from(s: &str) -> TopologyGuarantee {
